@@ -293,6 +293,20 @@ func callees(info *types.Info, c *ast.CallExpr) (cands []*fnInfo, dynamic bool) 
 	return nil, false
 }
 
+// replySource: the value of the call comes (or may come) from the device: a wire primitive, or a
+// module helper that is inlined because it reaches one.
+func replySource(info *types.Info, c *ast.CallExpr) bool {
+	f := staticCallee(info, c)
+	if _, _, ok := wirePrim(f); ok {
+		return true
+	}
+	if f == nil || isAbort(f) || isWarning(f) {
+		return false
+	}
+	cands, dynamic := callees(info, c)
+	return !dynamic && len(cands) == 1 && !cands[0].listed && isImpure(cands[0])
+}
+
 func isAbort(f *types.Func) bool {
 	if f == nil || f.Pkg() == nil {
 		return false
@@ -372,6 +386,9 @@ type fctx struct {
 	nclosure int
 	nfn      int
 	expand   map[types.Object]bool
+	// printing the body of a one-liner: parameters stand for argument texts (with their precedence)
+	fixedPrec map[types.Object]int
+	inlining  int
 }
 
 // loc: a variable, or one field of a variable (access paths of length ≤ 1)
@@ -509,7 +526,7 @@ func (fc *fctx) containsWire(e ast.Node) bool {
 		case *ast.FuncLit:
 			return false
 		case *ast.CallExpr:
-			if _, _, ok := wirePrim(staticCallee(fc.info, v)); ok {
+			if replySource(fc.info, v) {
 				found = true
 			}
 		}
@@ -753,6 +770,9 @@ func (fc *fctx) cheap(e ast.Expr) bool {
 				ok = true
 			}
 		}
+		if f := staticCallee(fc.info, v); f != nil && oneLiner(declOf[f], 0) != nil {
+			ok = true
+		}
 		if f := staticCallee(fc.info, v); f != nil && f.Pkg() != nil {
 			pp, rn := recvTypeName(f)
 			switch {
@@ -822,92 +842,239 @@ func isStrLit(s string) bool {
 }
 
 func (fc *fctx) ident(id *ast.Ident) string {
+	t, _ := fc.identP(id)
+	return t
+}
+
+// precedence of the printed form: 1..5 binary operators (Go's), 6 unary, 7 primary
+const (
+	precUnary   = 6
+	precPrimary = 7
+)
+
+func (fc *fctx) identP(id *ast.Ident) (string, int) {
 	if id.Name == "_" {
-		return "_"
+		return "_", precPrimary
 	}
 	o := fc.obj(id)
 	if o == nil {
-		return id.Name
+		return id.Name, precPrimary
 	}
 	if s, ok := fc.fixed[o]; ok {
-		return s
+		if pr, ok := fc.fixedPrec[o]; ok {
+			return s, pr
+		}
+		return s, precPrimary
 	}
 	switch v := o.(type) {
 	case *types.Const:
 		if v.Val().Kind() == constant.String {
-			return strconv.Quote(constant.StringVal(v.Val()))
+			return strconv.Quote(constant.StringVal(v.Val())), precPrimary
 		}
 		if fc.isLocalConst(v) {
-			return v.Val().ExactString()
+			return v.Val().ExactString(), precPrimary
 		}
-		return id.Name
+		return id.Name, precPrimary
 	case *types.Var:
 		if !fc.isLocal(v) {
-			return id.Name
+			return id.Name, precPrimary
 		}
 		if isErrorType(v.Type()) {
-			return "err"
+			return "err", precPrimary
 		}
 		if r := fc.single(v); r != nil && !fc.expand[v] {
 			fc.expand[v] = true
-			s := fc.p(r)
+			s, pr := fc.pp(r)
 			fc.expand[v] = false
-			if _, bin := stripParen(r).(*ast.BinaryExpr); bin && !isStrLit(s) {
-				return "(" + s + ")"
-			}
-			return s
+			return s, pr
 		}
-		return fc.placeholder(v)
+		return fc.placeholder(v), precPrimary
 	}
-	return id.Name
+	return id.Name, precPrimary
 }
 
 func (fc *fctx) isLocalConst(c *types.Const) bool {
 	return c.Pkg() != nil && c.Parent() != c.Pkg().Scope()
 }
 
-// p: canonical text of an expression (locals as placeholders).
+// oneLiner: a module function `func f(params) T { return e }` where e is built from the
+// parameters, constants, strings.* / len / conversions and other one-liners only.  A call of it is
+// printed as e with the arguments substituted (so extracting such a helper, or inlining it, does
+// not change the normal form) and may define a single-assignment local that is expanded.
+func oneLiner(fi *fnInfo, depth int) ast.Expr {
+	if fi == nil || depth > 4 || fi.decl.Recv != nil || len(fi.decl.Body.List) != 1 {
+		return nil
+	}
+	rs, ok := fi.decl.Body.List[0].(*ast.ReturnStmt)
+	if !ok || len(rs.Results) != 1 {
+		return nil
+	}
+	if fi.decl.Type.Params != nil {
+		for _, f := range fi.decl.Type.Params.List {
+			if _, variadic := f.Type.(*ast.Ellipsis); variadic || len(f.Names) == 0 {
+				return nil
+			}
+		}
+	}
+	params := map[types.Object]bool{}
+	for _, f := range fi.decl.Type.Params.List {
+		for _, n := range f.Names {
+			params[fi.info.Defs[n]] = true
+		}
+	}
+	good := true
+	ast.Inspect(rs.Results[0], func(n ast.Node) bool {
+		switch v := n.(type) {
+		case *ast.FuncLit, *ast.CompositeLit, *ast.StarExpr, *ast.TypeAssertExpr:
+			good = false
+		case *ast.UnaryExpr:
+			if v.Op == token.AND || v.Op == token.ARROW {
+				good = false
+			}
+		case *ast.SelectorExpr:
+			if _, isSel := fi.info.Selections[v]; isSel {
+				// field of a parameter (value read once at the call)
+				ast.Inspect(v.X, func(m ast.Node) bool { return true })
+				return true
+			}
+			if o, isVar := fi.info.Uses[v.Sel].(*types.Var); isVar && o != nil {
+				good = false // package variable of another package
+			}
+			return false
+		case *ast.Ident:
+			o := fi.info.Uses[v]
+			if vr, isVar := o.(*types.Var); isVar && !vr.IsField() && !params[o] {
+				good = false // package variable or other state
+			}
+		case *ast.CallExpr:
+			if tv, isT := fi.info.Types[v.Fun]; isT && tv.IsType() {
+				return true
+			}
+			if id, isID := v.Fun.(*ast.Ident); isID {
+				if _, isB := fi.info.Uses[id].(*types.Builtin); isB && id.Name == "len" {
+					return true
+				}
+			}
+			f := staticCallee(fi.info, v)
+			switch {
+			case f != nil && f.Pkg() != nil && f.Pkg().Path() == "strings" && isIfaceMethod(f) == nil:
+				if sig, ok := f.Type().(*types.Signature); ok && sig.Recv() != nil {
+					good = false
+				}
+			case f != nil && oneLiner(declOf[f], depth+1) != nil:
+			default:
+				good = false
+			}
+		}
+		return good
+	})
+	if !good {
+		return nil
+	}
+	return rs.Results[0]
+}
+
+// inlineCall: text of a call of a one-liner, arguments substituted.
+func (fc *fctx) inlineCall(c *ast.CallExpr) (string, int, bool) {
+	f := staticCallee(fc.info, c)
+	if f == nil {
+		return "", 0, false
+	}
+	fi := declOf[f]
+	body := oneLiner(fi, 0)
+	if body == nil || fc.inlining > 4 {
+		return "", 0, false
+	}
+	sub := &fctx{fi: fi, info: fi.info, fixed: map[types.Object]string{}, fixedPrec: map[types.Object]int{}, defs: map[types.Object]int{},
+		rhs: map[types.Object]ast.Expr{}, mut: map[loc]int{}, anyMut: map[types.Object]bool{}, anyTaint: map[types.Object]bool{},
+		reply: map[types.Object]bool{}, tainted: map[loc]bool{}, argVars: map[types.Object]bool{},
+		lazyIdx: map[types.Object]int{}, expand: map[types.Object]bool{}, inlining: fc.inlining + 1}
+	i := 0
+	for _, fl := range fi.decl.Type.Params.List {
+		for _, n := range fl.Names {
+			if i >= len(c.Args) {
+				return "", 0, false
+			}
+			t, pr := fc.pp(c.Args[i])
+			if o := fi.info.Defs[n]; o != nil {
+				sub.fixed[o] = t
+				sub.fixedPrec[o] = pr
+			}
+			i++
+		}
+	}
+	if i != len(c.Args) {
+		return "", 0, false
+	}
+	t, pr := sub.pp(body)
+	return t, pr, true
+}
+
+// p: canonical text of an expression (locals as placeholders).  Parentheses of the source are
+// dropped and put back where the precedence of the printed form needs them.
 func (fc *fctx) p(e ast.Expr) string {
+	t, _ := fc.pp(e)
+	return t
+}
+
+// operand of an operator of precedence need
+func (fc *fctx) operand(e ast.Expr, need int) string {
+	t, pr := fc.pp(e)
+	if pr < need {
+		return "(" + t + ")"
+	}
+	return t
+}
+
+func (fc *fctx) pp(e ast.Expr) (string, int) {
 	if e == nil {
-		return ""
+		return "", precPrimary
 	}
 	if tv, ok := fc.info.Types[e]; ok && tv.Value != nil && tv.Value.Kind() == constant.String {
-		return strconv.Quote(constant.StringVal(tv.Value))
+		return strconv.Quote(constant.StringVal(tv.Value)), precPrimary
 	}
 	switch v := e.(type) {
 	case *ast.Ident:
-		return fc.ident(v)
+		return fc.identP(v)
 	case *ast.BasicLit:
-		return v.Value
+		return v.Value, precPrimary
 	case *ast.ParenExpr:
-		s := fc.p(v.X)
-		if strings.HasPrefix(s, "(") && strings.HasSuffix(s, ")") {
-			return s
-		}
-		return "(" + s + ")"
+		return fc.pp(v.X)
 	case *ast.StarExpr:
-		return "*" + fc.p(v.X)
+		return "*" + fc.operand(v.X, precUnary), precUnary
 	case *ast.UnaryExpr:
-		return v.Op.String() + fc.p(v.X)
+		return v.Op.String() + fc.operand(v.X, precUnary), precUnary
 	case *ast.BinaryExpr:
-		l, r := fc.p(v.X), fc.p(v.Y)
+		pr := v.Op.Precedence()
+		l, r := fc.operand(v.X, pr), fc.operand(v.Y, pr+1)
 		if v.Op == token.ADD && isStrLit(l) && isStrLit(r) {
 			a, _ := strconv.Unquote(l)
 			b, _ := strconv.Unquote(r)
-			return strconv.Quote(a + b)
+			return strconv.Quote(a + b), precPrimary
 		}
-		return l + " " + v.Op.String() + " " + r
+		if v.Op == token.ADD {
+			// string concatenation is associative: a + (b + c) ≡ a + b + c
+			if tv, ok := fc.info.Types[e]; ok && tv.Type != nil {
+				if b, ok := tv.Type.Underlying().(*types.Basic); ok && b.Info()&types.IsString != 0 {
+					r = fc.operand(v.Y, pr)
+				}
+			}
+		}
+		return l + " " + v.Op.String() + " " + r, pr
 	case *ast.SelectorExpr:
-		return fc.p(v.X) + "." + v.Sel.Name
+		return fc.operand(v.X, precPrimary) + "." + v.Sel.Name, precPrimary
 	case *ast.IndexExpr:
-		return fc.p(v.X) + "[" + fc.p(v.Index) + "]"
+		return fc.operand(v.X, precPrimary) + "[" + fc.p(v.Index) + "]", precPrimary
 	case *ast.SliceExpr:
-		return fc.p(v.X) + "[" + fc.p(v.Low) + ":" + fc.p(v.High) + "]"
+		return fc.operand(v.X, precPrimary) + "[" + fc.p(v.Low) + ":" + fc.p(v.High) + "]", precPrimary
 	case *ast.TypeAssertExpr:
-		return fc.p(v.X) + ".(" + rawText(v.Type) + ")"
+		return fc.operand(v.X, precPrimary) + ".(" + rawText(v.Type) + ")", precPrimary
 	case *ast.CallExpr:
-		if _, _, ok := wirePrim(staticCallee(fc.info, v)); ok {
-			return "<reply>"
+		if replySource(fc.info, v) {
+			return "<reply>", precPrimary
+		}
+		if t, pr, ok := fc.inlineCall(v); ok {
+			return t, pr
 		}
 		args := make([]string, len(v.Args))
 		for i, a := range v.Args {
@@ -916,11 +1083,11 @@ func (fc *fctx) p(e ast.Expr) string {
 		fun := ""
 		switch f := v.Fun.(type) {
 		case *ast.Ident, *ast.SelectorExpr, *ast.ParenExpr:
-			fun = fc.p(f)
+			fun = fc.operand(f, precPrimary)
 		default:
 			fun = rawText(v.Fun)
 		}
-		return fun + "(" + strings.Join(args, ", ") + ")"
+		return fun + "(" + strings.Join(args, ", ") + ")", precPrimary
 	case *ast.CompositeLit:
 		parts := make([]string, len(v.Elts))
 		for i, el := range v.Elts {
@@ -930,13 +1097,13 @@ func (fc *fctx) p(e ast.Expr) string {
 		if v.Type != nil {
 			t = rawText(v.Type)
 		}
-		return t + "{" + strings.Join(parts, ", ") + "}"
+		return t + "{" + strings.Join(parts, ", ") + "}", precPrimary
 	case *ast.KeyValueExpr:
-		return rawText(v.Key) + ": " + fc.p(v.Value)
+		return rawText(v.Key) + ": " + fc.p(v.Value), precPrimary
 	case *ast.FuncLit:
-		return "func{…}"
+		return "func{…}", precPrimary
 	}
-	return rawText(e)
+	return rawText(e), precPrimary
 }
 
 func stripParen(e ast.Expr) ast.Expr {
@@ -951,12 +1118,17 @@ func stripParen(e ast.Expr) ast.Expr {
 
 // cond: condition; neg: print its negation.  Comparisons are negated by flipping the operator.
 func (fc *fctx) cond(e ast.Expr, neg bool) string {
+	t, _ := fc.condP(e, neg)
+	return t
+}
+
+func (fc *fctx) condP(e ast.Expr, neg bool) (string, int) {
 	switch v := e.(type) {
 	case *ast.ParenExpr:
-		return fc.cond(v.X, neg)
+		return fc.condP(v.X, neg)
 	case *ast.UnaryExpr:
 		if v.Op == token.NOT {
-			return fc.cond(v.X, !neg)
+			return fc.condP(v.X, !neg)
 		}
 	case *ast.BinaryExpr:
 		flip := map[token.Token]token.Token{token.EQL: token.NEQ, token.NEQ: token.EQL, token.LSS: token.GEQ, token.GEQ: token.LSS,
@@ -966,31 +1138,29 @@ func (fc *fctx) cond(e ast.Expr, neg bool) string {
 			if neg {
 				op = f
 			}
-			return fc.p(v.X) + " " + op.String() + " " + fc.p(v.Y)
+			pr := op.Precedence()
+			return fc.operand(v.X, pr) + " " + op.String() + " " + fc.operand(v.Y, pr+1), pr
 		}
 		if v.Op == token.LAND || v.Op == token.LOR {
-			sub := func(x ast.Expr) string {
-				s := fc.cond(x, false)
-				if b, ok := stripParen(x).(*ast.BinaryExpr); ok && (b.Op == token.LAND || b.Op == token.LOR) && b.Op != v.Op {
-					return "(" + s + ")"
+			pr := v.Op.Precedence()
+			sub := func(x ast.Expr, need int) string {
+				t, p := fc.condP(x, false)
+				if p < need {
+					return "(" + t + ")"
 				}
-				return s
+				return t
 			}
-			s := sub(v.X) + " " + v.Op.String() + " " + sub(v.Y)
+			t := sub(v.X, pr) + " " + v.Op.String() + " " + sub(v.Y, pr)
 			if neg {
-				return "!(" + s + ")"
+				return "!(" + t + ")", precUnary
 			}
-			return s
+			return t, pr
 		}
 	}
-	s := fc.p(e)
 	if neg {
-		if _, ok := stripParen(e).(*ast.BinaryExpr); ok {
-			return "!(" + s + ")"
-		}
-		return "!" + s
+		return "!" + fc.operand(e, precUnary), precUnary
 	}
-	return s
+	return fc.pp(e)
 }
 
 // ---------------------------------------------------------------- the walker (builds a tree)
@@ -1167,7 +1337,11 @@ func (x *ex) closure(fl *ast.FuncLit, name string) {
 	x.rets = true
 	x.inSw = 0
 	x.ctl = nil
-	x.under(n, func() { x.block(fl.Body.List) })
+	role := ""
+	if fl.Type.Results == nil || len(fl.Type.Results.List) == 0 {
+		role = "func"
+	}
+	x.under(n, func() { x.blockRole(fl.Body.List, role) })
 	x.rets, x.inSw, x.ctl = saveRets, saveSw, saveCtl
 }
 
@@ -1238,13 +1412,26 @@ func (x *ex) terminates(l []ast.Stmt) bool {
 	return false
 }
 
-func (x *ex) block(l []ast.Stmt) {
+func (x *ex) block(l []ast.Stmt) { x.blockRole(l, "") }
+
+// blockRole: role "loop": l is the body of a loop; "func": l is the body of a function or closure
+// without results.  There an `if` that only skips the rest of the block is written as the
+// complementary `if` around the rest:
+//
+//	if c { continue }; REST  ≡  if !c { REST }        if c { return }; REST  ≡  if !c { REST }
+func (x *ex) blockRole(l []ast.Stmt, role string) {
 	for i, s := range l {
-		// `if c { continue }; REST`  ≡  `if !c { REST }`
-		if v, ok := s.(*ast.IfStmt); ok && v.Else == nil && v.Init == nil && len(v.Body.List) == 1 && x.innerLoop() {
-			if b, ok := v.Body.List[0].(*ast.BranchStmt); ok && b.Tok == token.CONTINUE && b.Label == nil {
+		if v, ok := s.(*ast.IfStmt); ok && role != "" && v.Else == nil && v.Init == nil && len(v.Body.List) == 1 {
+			skip := false
+			switch b := v.Body.List[0].(type) {
+			case *ast.BranchStmt:
+				skip = role == "loop" && b.Tok == token.CONTINUE && b.Label == nil
+			case *ast.ReturnStmt:
+				skip = role == "func" && len(b.Results) == 0
+			}
+			if skip {
 				x.expr(v.Cond)
-				rest := x.sub(func() { x.block(l[i+1:]) })
+				rest := x.sub(func() { x.blockRole(l[i+1:], role) })
 				if len(rest) > 0 {
 					n := x.emit("if", x.fc.cond(v.Cond, true))
 					n.kids = rest
@@ -1285,10 +1472,13 @@ func (fc *fctx) textual(e ast.Expr) bool {
 				}
 			}
 			f := staticCallee(fc.info, v)
-			if _, _, w := wirePrim(f); w {
+			if replySource(fc.info, v) {
 				return false // printed as <reply>
 			}
 			if f != nil && f.Pkg() != nil && f.Pkg().Path() == "strings" {
+				return true
+			}
+			if f != nil && oneLiner(declOf[f], 0) != nil {
 				return true
 			}
 			ok = false
@@ -1318,7 +1508,7 @@ func (fc *fctx) deps(es []ast.Expr) string {
 				visit(v.Value, depth)
 				return false
 			case *ast.CallExpr:
-				if _, _, w := wirePrim(staticCallee(fc.info, v)); w {
+				if replySource(fc.info, v) {
 					add("<reply>")
 					return false
 				}
@@ -1363,13 +1553,20 @@ func (x *ex) assign(v *ast.AssignStmt) {
 	for _, r := range v.Rhs {
 		x.expr(r)
 	}
-	always, isReply := false, false
+	always, isReply, multi := false, false, false
 	for _, l := range v.Lhs {
 		switch t := l.(type) {
 		case *ast.Ident:
 			o := fc.obj(t)
 			if x.front && o != nil && fc.argVars[o] && fc.isLocal(o) && fc.defs[o] > 1 {
 				always = true
+			}
+			if o != nil && t.Name != "_" && fc.isLocal(o) {
+				if nm := fc.fixed[o]; nm != "" && !fnameRe.MatchString(nm) {
+					always = true // a parameter is overwritten: `p1` no longer means the argument
+				} else if fc.defs[o] > 1 && !isErrorType(o.Type()) {
+					multi = true // every definition of a variable with several definitions matters
+				}
 			}
 		case *ast.SelectorExpr:
 			if watchedFields[t.Sel.Name] {
@@ -1392,9 +1589,10 @@ func (x *ex) assign(v *ast.AssignStmt) {
 			return
 		}
 	}
-	if !always && !carries {
+	if !always && !carries && !multi {
 		return
 	}
+	carries = carries || multi
 	exact := always
 	if !exact {
 		exact = true
@@ -1417,7 +1615,13 @@ func (x *ex) assign(v *ast.AssignStmt) {
 			rhs[i] = fc.p(r)
 		}
 		n.rhs = strings.Join(rhs, ", ")
-		n.text = n.lhs + " " + v.Tok.String() + " " + n.rhs
+		tok := v.Tok.String()
+		if v.Tok != token.DEFINE && v.Tok != token.ASSIGN && len(v.Lhs) == 1 {
+			// x op= e  ≡  x = x op e
+			n.rhs = n.lhs + " " + strings.TrimSuffix(tok, "=") + " " + n.rhs
+			tok = "="
+		}
+		n.text = n.lhs + " " + tok + " " + n.rhs
 	} else {
 		// results handed back through arguments count as left side
 		var ins []ast.Expr
@@ -1451,6 +1655,22 @@ func (x *ex) assign(v *ast.AssignStmt) {
 
 func (x *ex) ifStmt(v *ast.IfStmt) {
 	fc := x.fc
+	// `if a { if b { X } }`  ≡  `if a && b { X }`
+	if v.Else == nil && len(v.Body.List) == 1 {
+		// (only for conditions that do nothing that is shown: `&&` would hide when a call happens)
+		if in, ok := v.Body.List[0].(*ast.IfStmt); ok && in.Else == nil && in.Init == nil &&
+			len(x.sub(func() { x.expr(v.Cond); x.expr(in.Cond) })) == 0 {
+			x.stmt(v.Init)
+			par := func(e ast.Expr) ast.Expr {
+				if b, ok := stripParen(e).(*ast.BinaryExpr); ok && b.Op == token.LOR {
+					return &ast.ParenExpr{X: e}
+				}
+				return e
+			}
+			x.ifStmt(&ast.IfStmt{If: v.If, Cond: &ast.BinaryExpr{X: par(v.Cond), Op: token.LAND, Y: par(in.Cond)}, Body: in.Body})
+			return
+		}
+	}
 	x.stmt(v.Init)
 	x.expr(v.Cond)
 	thenT := x.terminates(v.Body.List)
@@ -1464,6 +1684,20 @@ func (x *ex) ifStmt(v *ast.IfStmt) {
 			elseList = []ast.Stmt{e}
 		}
 		elseT = x.terminates(elseList)
+	}
+	if thenT && elseT {
+		// both branches end the block: `if c {A} else {B}` ≡ `if c {A}; B` ≡ `if !c {B}; A`.
+		// Canonical: the branch under the negative condition (`!…`, `!=`) is the guard.
+		c := fc.cond(v.Cond, false)
+		negative := strings.HasPrefix(c, "!")
+		if b, ok := stripParen(v.Cond).(*ast.BinaryExpr); ok && b.Op == token.NEQ {
+			negative = true
+		}
+		if negative {
+			elseT = false
+		} else {
+			thenT = false
+		}
 	}
 	switch {
 	case thenT && !elseT:
@@ -1532,7 +1766,11 @@ func (x *ex) stmt(s ast.Stmt) {
 	case *ast.ForStmt:
 		x.stmt(v.Init)
 		x.expr(v.Cond)
-		body := x.sub(func() { x.within("loop", func() { x.block(v.Body.List); x.stmt(v.Post) }) })
+		role := "loop"
+		if v.Post != nil {
+			role = ""
+		}
+		body := x.sub(func() { x.within("loop", func() { x.blockRole(v.Body.List, role); x.stmt(v.Post) }) })
 		if len(body) == 0 {
 			return
 		}
@@ -1544,7 +1782,7 @@ func (x *ex) stmt(s ast.Stmt) {
 		n.kids = body
 	case *ast.RangeStmt:
 		x.expr(v.X)
-		body := x.sub(func() { x.within("loop", func() { x.block(v.Body.List) }) })
+		body := x.sub(func() { x.within("loop", func() { x.blockRole(v.Body.List, "loop") }) })
 		if len(body) == 0 {
 			return
 		}
@@ -1562,7 +1800,7 @@ func (x *ex) stmt(s ast.Stmt) {
 		for i, r := range v.Results {
 			if c, ok := r.(*ast.CallExpr); ok {
 				f := staticCallee(fc.info, c)
-				_, _, wire := wirePrim(f)
+				wire := replySource(fc.info, c)
 				switch {
 				case wire:
 					parts[i] = "<reply>"
@@ -1666,7 +1904,11 @@ func skeletonOf(fi *fnInfo, rets, front bool, fn string, inline map[*fnInfo]bool
 	fc := newCtx(fi)
 	var top []*node
 	x := &ex{cur: &top, rets: rets, front: front, fn: fn, fc: fc, inline: inline}
-	x.block(fi.decl.Body.List)
+	role := ""
+	if fi.decl.Type.Results == nil || len(fi.decl.Type.Results.List) == 0 {
+		role = "func"
+	}
+	x.blockRole(fi.decl.Body.List, role)
 
 	var assigns []*node
 	var collect func(l []*node)
